@@ -52,9 +52,8 @@ def humans_on_join(human_bells, user_name=None, wheatley_bells=None):
 
 
 class Follower:
-    """Reactive human(s): every `poll` seconds looks at what Wheatley is waiting for / about to ring
-    (peeking at the Bot's row and place: a generator of inputs need not be independent of the
-    implementation) and strikes its own bell `lag(r, p)` seconds after it became due."""
+    """Reactive human(s): every `poll` seconds looks at the turn Wheatley is at (`sim.View`: what the Bot
+    told its rhythm object) and strikes its own bell `lag(r, p)` seconds after it became due."""
 
     def __init__(self, s, bells, lag, poll=0.01, start=None, stop=None):
         self.bells = set(bells)
@@ -70,13 +69,13 @@ class Follower:
     def tick(self, s, t):
         if self.stop is not None and t > self.stop:
             return
-        bot = getattr(s, "bot", None)
-        if bot is not None and bot._is_ringing and bot._place < len(bot._row):
-            bell = bot._row[bot._place].number
-            key = (bot._row_number, bot._place, id(bot._row))
+        v = s.view
+        if v.ringing and v.turn is not None:
+            row, place, bell, _ = v.turn
+            key = (v.touch, row, place)
             if bell in self.bells and key not in self.done:
                 self.done.add(key)
-                lag = self.lag(bot._row_number, bot._place)
+                lag = self.lag(row, place)
                 if lag is not None:
                     s.push(t + lag, "internal", lambda tt, b=bell: self.strike(s, tt, b))
         s.push(t + self.poll, "internal", lambda tt: self.tick(s, tt))
